@@ -228,7 +228,7 @@ func runLazy(cfg *lib.Config, res *lib.Result, rng *lib.Rng) {
 		stack := [][]int{nil}
 		done := true
 		for len(stack) > 0 {
-			if n >= limit {
+			if n >= limit || stuck() {
 				done = false
 				break
 			}
@@ -251,7 +251,7 @@ func runLazy(cfg *lib.Config, res *lib.Result, rng *lib.Rng) {
 		if done {
 			complete++
 		} else {
-			for k := 0; k < 100; k++ {
+			for k := 0; k < 100 && !stuck(); k++ {
 				r := rng.Fork()
 				visit(c, runLazyCase(c, noisyPolicy(r, len(c.Prog), 4+r.Intn(12))))
 			}
